@@ -431,6 +431,34 @@ pub fn run(ctx: &Ctx, rep: &mut Report) {
                 }
             }
         }
+        // 300 samples in one build (more than 2^8 sample columns): sample i carries substitutions at the positions of
+        // the set bits of i+1, two records each
+        {
+            idx += 1;
+            if ctx.mine(idx) {
+                let k = 15usize;
+                let g = crate::enumerate::repeat_free(12 * k, k, 0, ctx.seed + 3100);
+                let g2 = crate::enumerate::repeat_free(3 * k, k, 0, ctx.seed + 3101);
+                let samples: Vec<Vec<Vec<u8>>> = (0..300usize)
+                    .map(|i| {
+                        let mut s = g.clone();
+                        for bit in 0..9 {
+                            if ((i + 1) >> bit) & 1 == 1 {
+                                let p = k + bit * (k + 2);
+                                s[p] = comp(s[p]);
+                            }
+                        }
+                        vec![if i % 3 == 1 { rc_str(&s) } else { s }, g2[i % k..].to_vec()]
+                    })
+                    .collect();
+                rep.evaluations += 1;
+                rep.nontrivial += 1;
+                rep.corner("cli_build_nk_300_samples");
+                if let Err(e) = cli_case(&samples, k, true) {
+                    rep.violate("cli build+nk 300 samples".into(), format!("300 samples: {e}"), json!({"cli": true, "many_samples": 300, "k": k}));
+                }
+            }
+        }
         rep.completed.push("CLI build+nk".into());
     }
     rep.sample(json!({"records": ["ACGTTGCAT"], "k": 9, "rc": true, "wide": false, "note": "record of length exactly k: one split k-mer expected"}));
